@@ -253,6 +253,39 @@ impl Prop for C17 {
                 let bytes = spectrum_bytes(&spec, rng.chance(1, 2), 6);
                 deliver(&mut rng, &mut case, bytes);
             }
+            3 | 4 if rng.chance(1, 3) => {
+                // long axes: sample sizes around the boundaries of integer widths and of the
+                // factorial table (63..68, 127..129, 170..172, 255..257 chromosomes, ~1,000)
+                case.family = "large_axes".into();
+                let n = *rng.pick(&[62usize, 63, 64, 65, 66, 67, 68, 69, 127, 128, 129, 169, 170, 171, 172, 173, 255, 256, 257, 341, 1031]);
+                let two = rng.chance(1, 3);
+                let shape = if two { vec![n + 1, rng.range(2, 4)] } else { vec![n + 1] };
+                let spec = small_spec(&mut rng, shape.clone());
+                case.args = vec!["view".into()];
+                let target = match rng.below(5) {
+                    0 => rng.range(1, n),
+                    1 => rng.range(20, 45.min(n)),
+                    2 => n,
+                    3 => n - 1,
+                    _ => *rng.pick(&[1usize, 2, 24, 29, 30, 31, 33, 43]),
+                };
+                if rng.chance(1, 2) || two {
+                    case.args.push("--project-shape".into());
+                    case.args.push(if two { format!("{},{}", target + 1, shape[1]) } else { format!("{}", target + 1) });
+                } else {
+                    case.args.push("-p".into());
+                    case.args.push(format!("{}", target / 2));
+                }
+                if rng.chance(1, 4) {
+                    case.args.push("-n".into());
+                }
+                if rng.chance(1, 3) {
+                    // statistics on long one-dimensional spectra use the same tables
+                    case.args = vec!["stat".into(), "-s".into(), (*rng.pick(&["theta,pi,d-tajima,d-fu-li", "pi", "theta", "d-tajima", "s,sum"])).to_string()];
+                }
+                let bytes = spectrum_bytes(&spec, rng.chance(1, 2), 6);
+                deliver(&mut rng, &mut case, bytes);
+            }
             3..=5 => {
                 case.family = "view_options".into();
                 let shape: Vec<usize> = match rng.below(5) {
@@ -502,6 +535,36 @@ impl Prop for C17 {
                 };
                 deliver(&mut rng, &mut case, bytes);
             }
+            15 if rng.chance(1, 4) => {
+                // dozens of populations: the number of cells of the requested spectrum (3^d for
+                // one-sample populations) outgrows memory and, from 41 populations on, usize
+                case.family = "many_populations".into();
+                let n = *rng.pick(&[20usize, 33, 40, 41, 42, 64]);
+                let samples: Vec<String> = (0..n).map(|i| format!("s{i}")).collect();
+                let cs = gen::CallSet {
+                    samples: samples.clone(),
+                    ncontigs: 1,
+                    extra_info: false,
+                    recs: vec![gen::Rec {
+                        contig: 0,
+                        pos: 5,
+                        nalt: 1,
+                        gts: (0..n).map(|i| if i % 3 == 0 { "0/1".to_string() } else { "0/0".to_string() }).collect(),
+                        extra_fmt: false,
+                        kind: 0,
+                        no_gt: false,
+                    }],
+                    contig_style: 0,
+                };
+                let list = samples.iter().enumerate().map(|(i, s)| format!("{s}=p{i}")).collect::<Vec<_>>().join(",");
+                case.args = vec!["create".into(), "-s".into(), list];
+                if rng.chance(1, 3) {
+                    case.args.push("--project-shape".into());
+                    case.args.push(vec!["2"; n].join(","));
+                }
+                let bytes = cs.to_vcf();
+                deliver(&mut rng, &mut case, bytes);
+            }
             14 | 15 if rng.chance(1, 3) => {
                 // path faults: missing / unreadable / directory inputs, unwritable outputs
                 case.family = "path_faults".into();
@@ -538,7 +601,7 @@ impl Prop for C17 {
                 // reserved / end-of-vector / missing codes and type descriptor bytes
                 case.family = "bcf_typed_values".into();
                 let mut p = CallSetParams::standard(5, 6);
-                p.kind_w = [5, 2, 2, 2, 1, 1, 0, 0, 0, 0, 0, 0];
+                p.kind_w = [5, 2, 2, 2, 1, 1, 0, 0, 0, 0, 0, 0, 0, 0];
                 let (mut callset, cfg) = gen::gen_callset(&mut rng, &p);
                 if callset.recs.is_empty() {
                     let s = callset.samples.clone();
@@ -572,7 +635,7 @@ impl Prop for C17 {
                 let bytes = if rng.chance(1, 2) {
                     raw
                 } else {
-                    gen::bgzf_frame(&raw, &Layout { blocks: vec![], eof_marker: true, level: 6 }).0
+                    gen::bgzf_frame(&raw, &Layout { blocks: vec![], eof_marker: true, level: 6, bcf_minor: 0 }).0
                 };
                 case.args = vec!["create".into()];
                 if rng.chance(1, 2) {
@@ -584,7 +647,7 @@ impl Prop for C17 {
                 case.family = "create".into();
                 let mut p = CallSetParams::standard(6, 8);
                 p.allow_ploidy = true;
-                p.kind_w = [5, 2, 2, 2, 1, 1, 1, 1, 1, 1, 1, 1];
+                p.kind_w = [5, 2, 2, 2, 1, 1, 1, 1, 1, 1, 1, 1, 1, 1];
                 let (callset, cfg) = gen::gen_callset(&mut rng, &p);
                 let vcf = callset.to_vcf();
                 let container = *rng.pick(&Container::ALL);
@@ -592,6 +655,7 @@ impl Prop for C17 {
                     blocks: vec![],
                     eof_marker: rng.chance(3, 4),
                     level: 6,
+                bcf_minor: 0,
                 };
                 let mut bytes = gen::encode(&vcf, container, &layout).map(|x| x.0).unwrap_or(vcf.clone());
                 if rng.chance(1, 2) {
@@ -611,13 +675,14 @@ impl Prop for C17 {
                     1 => {
                         case.args.push("-s".into());
                         let a = rng.pick(names).clone();
-                        case.args.push(match rng.below(7) {
+                        case.args.push(match rng.below(8) {
                             0 => "nosuchsample".to_string(),
                             1 => "=pop".to_string(),
                             2 => format!("{a}="),
                             3 => ",".to_string(),
                             4 => format!("{a},,{a}"),
                             5 => format!("{a}=x=y"),
+                            6 => format!("Åke,{a}"),
                             _ => format!("{a}=\t"),
                         });
                     }
@@ -637,6 +702,10 @@ impl Prop for C17 {
                     3 => {
                         case.family = "create_samples_file".into();
                         let mut txt = String::new();
+                        if rng.chance(1, 6) {
+                            // lines that start with a non-ASCII character, a byte-order mark, a comment sign
+                            txt.push_str(*rng.pick(&["\u{feff}", "Åke\tpop0\n", "样本1\n", "#comment\n", "é\n", "\u{1F600}\tx\n"]));
+                        }
                         if rng.chance(1, 8) {
                             txt.push_str(*rng.pick(&["\n\n\n", "", "\t\n", "\r\n", " \n"]));
                         }
@@ -889,6 +958,8 @@ impl Prop for C17 {
             "family.create_samples_file",
             "family.bcf_typed_values",
             "family.path_faults",
+            "family.large_axes",
+            "family.many_populations",
             "family.thousands_of_axes",
             "fault.chunked_stdin",
             "exit.exit0",
